@@ -21,9 +21,9 @@ import (
 // simulation installs them.
 var (
 	VerifYield    func(site string)
-	VerifLockGate func(addr unsafe.Pointer)
-	VerifLocked   func(addr unsafe.Pointer)
-	VerifUnlocked func(addr unsafe.Pointer)
+	VerifLockGate func(mu interface{}) // called with the *sync.Mutex about to be locked
+	VerifLocked   func(mu interface{}) // right after Lock returned
+	VerifUnlocked func(mu interface{}) // right after Unlock returned
 )
 
 func verifYield(site string) {
@@ -31,17 +31,17 @@ func verifYield(site string) {
 		f(site)
 	}
 }
-func verifLockGate(addr unsafe.Pointer) {
+func verifLockGate(addr interface{}) {
 	if f := VerifLockGate; f != nil {
 		f(addr)
 	}
 }
-func verifLocked(addr unsafe.Pointer) {
+func verifLocked(addr interface{}) {
 	if f := VerifLocked; f != nil {
 		f(addr)
 	}
 }
-func verifUnlocked(addr unsafe.Pointer) {
+func verifUnlocked(addr interface{}) {
 	if f := VerifUnlocked; f != nil {
 		f(addr)
 	}
